@@ -9,6 +9,8 @@ package lsched
 
 import (
 	"errors"
+	"fmt"
+	"sync/atomic"
 	"io"
 	"os"
 	"runtime"
@@ -52,6 +54,7 @@ type Sched struct {
 	hbCount map[int]int
 	free    bool
 	gen     int // bumped on every state change, for waiters
+	Panics  int64 // backend panics converted into errors
 }
 
 func New(dirPath, hbPath string) *Sched {
@@ -242,9 +245,19 @@ func (f *Fs) Mkdir(name string, perm os.FileMode) error {
 	return err
 }
 
-func (f *Fs) Remove(name string) error {
+func (f *Fs) Remove(name string) (err error) {
 	p := f.S.enter(f.C, "Remove", name, 0)
-	err := f.Fs.Remove(name)
+	func() {
+		// afero's MemMapFs panics ("parent of ... is nil") when an entry whose directory has already been removed is
+		// removed; the harness turns that into an error of the operation instead of dying
+		defer func() {
+			if r := recover(); r != nil {
+				err = fmt.Errorf("backend panic: %v", r)
+				atomic.AddInt64(&f.S.Panics, 1)
+			}
+		}()
+		err = f.Fs.Remove(name)
+	}()
 	f.S.leave(p, ErrClass(err))
 	return err
 }
@@ -286,6 +299,29 @@ func (f *Fs) Stat(name string) (os.FileInfo, error) {
 	}
 	f.S.leave(p, res)
 	return fi, err
+}
+
+// LstatIfPossible makes the wrapper an afero.Lstater (filesystem.VFS.Lstat goes through it).
+func (f *Fs) LstatIfPossible(name string) (os.FileInfo, bool, error) {
+	p := f.S.enter(f.C, "Lstat", name, 0)
+	var fi os.FileInfo
+	var ok bool
+	var err error
+	if l, has := f.Fs.(afero.Lstater); has {
+		fi, ok, err = l.LstatIfPossible(name)
+	} else {
+		fi, err = f.Fs.Stat(name)
+	}
+	res := ErrClass(err)
+	if err == nil && fi != nil {
+		if fi.IsDir() {
+			res = "isdir"
+		} else {
+			res = "isfile"
+		}
+	}
+	f.S.leave(p, res)
+	return fi, ok, err
 }
 
 func (f *Fs) Open(name string) (afero.File, error) {
